@@ -173,13 +173,20 @@ struct AppendRangeOp {
 #endif
 
 // ---------------------------------------------------------------- standard vector API
+// one-byte integral elements start close to the sign change (values run from 100 over 127 to negative ones): code specialised on byte-sized
+// elements must order them as signed values, like the generic code
+template <class T, bool BYTE = std::is_integral<T>::value && sizeof(T) == 1>
+struct FirstValue { static int get() { return 1; } };
+template <class T>
+struct FirstValue<T, true> { static int get() { return 100; } };
+
 template <class V, unsigned MAXLEN>
 void vector_script(const char *tname, Rng &rng, int nops) {
   typedef typename V::value_type T;
   typedef typename V::size_type SizeT;
   V pool[3];
   g_out += "script vector<"; g_out += tname; g_out += ">\n";
-  int next_value = 1;
+  int next_value = FirstValue<T>::get();
   for (int i = 0; i < nops; ++i) {
     V &v = pool[rng.below(3)];
     V &w = pool[rng.below(3)];
@@ -522,12 +529,15 @@ int main(int argc, char **argv) {
       snprintf(head, sizeof head, "=== script %ld\n", h);
       g_out += head;
       if (sec == 0) {
-        switch (h % 13) {
+        switch (h % 16) {
           case 8: vector_script<amc::SmallVector<B<3>, 3>, 20>("B3,3", rng, nops); break;
           case 9: vector_script<amc::SmallVector<B<5>, 2>, 20>("B5,2", rng, nops); break;
           case 10: vector_script<amc::SmallVector<B<7>, 2, std::allocator<B<7> >, unsigned char>, 20>("B7,2,u8", rng, nops); break;
           case 11: vector_script<amc::SmallVector<B<6>, 5>, 20>("B6,5", rng, nops); break;
           case 12: vector_script<amc::SmallVector<B<3>, 11, amc::allocator<B<3> >, unsigned short>, 30>("B3,11,u16", rng, nops); break;
+          case 13: vector_script<amc::vector<signed char>, 40>("schar", rng, nops); break;
+          case 14: vector_script<amc::SmallVector<char, 6>, 30>("char,6", rng, nops); break;
+          case 15: vector_script<amc::FixedCapacityVector<signed char, 12>, 12>("schar,fixed12", rng, nops); break;
           case 0: vector_script<amc::vector<int>, 40>("int", rng, nops); break;
           case 1: vector_script<amc::SmallVector<S, 3>, 24>("S,3", rng, nops); break;
           case 2: vector_script<amc::FixedCapacityVector<SR, 8>, 8>("SR,fixed8", rng, nops); break;
